@@ -872,8 +872,17 @@ func genLimits(r *rand.Rand, idx int) (*genSpec, cfg) {
 		L = []uint32{16384, 16385, 16390, 20000, 32768, 65535, 65536, 100000, 1 << 20, 16384 + uint32(r.Intn(1<<16))}[r.Intn(10)]
 	}
 	c := cfg{Limit: L}
+	if idx%8 == 3 || idx%8 == 5 {
+		// limits below 2^14 (the Framer takes any value; SETTINGS_MAX_FRAME_SIZE has a lower bound, the read
+		// limit of a Framer has none - after seeded change C19-L), 0 included: only empty frames may be returned
+		L = []uint32{0, 1, 2, 8, 9, 10, 100, 255, 256, 1000, 4096, 16383, uint32(r.Intn(16384))}[r.Intn(13)]
+		c = cfg{Limit: L, LimitZero: L == 0}
+	}
 	eff := c.effLimit()
 	length := eff + uint32(idx/8%3) - 1
+	if eff == 0 && idx/8%3 == 0 {
+		length = uint32(1 + r.Intn(16384)) // (no frame of length -1: any length up to the usual maximum instead)
+	}
 	if length > 1<<24-1 {
 		length = eff
 	}
